@@ -155,6 +155,10 @@ func c03(tier string) []*explore.Scenario {
 	}
 	out = append(out, withHistory(historyKinds(tier), c03Early(2, 1, 64, "sendall", 1), c03Early(2, 0, 0, "concurrent", 1), c03LateReader("SStream", 18, true, 64))...)
 	out = append(out, withConfig(configKinds(tier), c03Early(2, 1, 64, "sendall", 1), c03Early(2, 0, 0, "concurrent", 1), c03LateReader("SStream", 18, true, 64))...)
+	// the outcome was delivered (one message + the status fit the client's queues) and then the read side fails
+	for _, fail := range []bool{true, false} {
+		out = append(out, c03LateReaderF("SStream", 1, fail, 64, true), c03LateReaderF("Bidi", 1, fail, 0, true), c03LateReaderF("SStream", 0, fail, 64, true))
+	}
 	// a caller that reads late: bursts of up to 200 messages, then the handler's outcome
 	for _, m := range []int{2, 16, 17, 18, 40, 200} {
 		for _, fail := range []bool{true, false} {
@@ -471,9 +475,20 @@ func toV1(ms []proto.Message) []protoadapt.MessageV1 {
 // to rest. It then receives the m messages and exactly the handler's outcome, however far it
 // had fallen behind.
 func c03LateReader(kind string, m int, fail bool, capn int) *explore.Scenario {
+	return c03LateReaderF(kind, m, fail, capn, false)
+}
+
+// readFails: after the handler's outcome has reached the client (unread), the transport's read
+// side fails; the caller then reads: what had already been delivered completely - the messages
+// and the handler's own status - is what it gets.
+func c03LateReaderF(kind string, m int, fail bool, capn int, readFails bool) *explore.Scenario {
 	fam := "C03/late-reader"
+	name := fmt.Sprintf("C03/late-reader/%s/m=%d/fail=%v/cap=%d", kind, m, fail, capn)
+	if readFails {
+		name += "/then-read-fails"
+	}
 	return &explore.Scenario{
-		Name: fmt.Sprintf("C03/late-reader/%s/m=%d/fail=%v/cap=%d", kind, m, fail, capn), Family: fam, Prop: "C03", Bound: 0,
+		Name: name, Family: fam, Prop: "C03", Bound: 0,
 		Run: func() {
 			w := env.NewWorld()
 			d := env.NewDirect(w, env.DirectOpts{Pipe: env.PipeOpts{Cap: capn, Serialize: true}})
@@ -502,6 +517,10 @@ func c03LateReader(kind string, m int, fail bool, capn int) *explore.Scenario {
 				r.CDone = true
 			})
 			vsched.Quiesce()
+			if readFails {
+				d.Pipe.A.FailReads()
+				vsched.Quiesce()
+			}
 			close(gate)
 			vsched.Quiesce()
 			vsched.Obs("%s m=%d: done=%v received=%d err=%s", kind, m, r.CDone, len(r.CRecv), env.ErrStr(r.CErr))
